@@ -456,6 +456,9 @@ func (x *Exec) convertTo(st *State, v Value, t types.Type, pos token.Pos) Value 
 	if types.Identical(v.Ty, t) {
 		return Value{T: v.T, Ty: t}
 	}
+	if _, isTP := t.(*types.TypeParam); isTP {
+		return v // generic parameter: keep the argument's own type
+	}
 	if _, ok := t.Underlying().(*types.Interface); ok {
 		if _, isI := v.Ty.Underlying().(*types.Interface); isI {
 			return Value{T: v.T, Ty: t}
